@@ -31,8 +31,12 @@ var c02 = &modelCheck{
 	},
 }
 
-func TestC02(t *testing.T)       { c02.run(t) }
-func TestReplayC02(t *testing.T) { c02.replay(t) }
+func TestC02(t *testing.T) { c02.run(t) }
+func TestReplayC02(t *testing.T) {
+	if !c02iReplay(t) {
+		c02.replay(t)
+	}
+}
 
 // C03 — rewritten code is the '+' pattern instantiated with what was captured.
 var c03 = &modelCheck{
